@@ -84,8 +84,7 @@ theorem marked_sett_err {addrs st} (h : Sett addrs st) (hs : st.settles = []) (s
   constructor
   · intro _
     refine ⟨?_, ?_⟩
-    · show st.inSet = List.range (modifyNth gDeliv st.streams s).length
-      rw [length_modifyNth]; exact h0
+    · exact h0.upd gDeliv s (fun y hy => hy) rfl rfl
     · refine forall_modifyNth _ _ _ _ h1 (fun y hy hP => ?_)
       rw [hx] at hy
       cases hy
@@ -178,11 +177,11 @@ theorem deliverOk_inv {addrs st} (h : Inv addrs st) (s : Nat) (x : Stream) (hx :
     refine ⟨foldl_closeStream_core _ (hcore.of_eq rfl rfl rfl rfl hcore.itl), ?_⟩
     have hL : ∀ (i : Nat) (y : Stream), (modifyNth gDeliv st.streams s)[i]? = some y → ∃ y',
         (closeStreams (won st s x.addr.idx)).streams[i]? = some y'
-          ∧ Evo y y' ∧ (i ∈ (List.range st.streams.length).erase s → y'.closed = true)
-          ∧ (i ∉ (List.range st.streams.length).erase s → y' = y) := by
-      intro i y hy
-      obtain ⟨y', e1, e2, e3, e4⟩ := foldl_closeStream_evo (st.inSet.erase s) (won st s x.addr.idx) i y hy
-      exact ⟨y', e1, e2, fun hm => e3 (by rw [h0]; exact hm), fun hn => e4 (by rw [h0]; exact hn)⟩
+          ∧ Evo y y' ∧ (i ∈ st.inSet.erase s → y'.closed = true)
+          ∧ (i ∉ st.inSet.erase s → y' = y) :=
+      fun i y hy => foldl_closeStream_evo (st.inSet.erase s) (won st s x.addr.idx) i y hy
+    have h0' := (h0.upd (st' := marked st s) gDeliv s (fun y hy => hy) rfl rfl).1
+    have hnd : st.inSet.Nodup := h0.2.1
     have hF := foldl_closeStream_fields (st.inSet.erase s) (won st s x.addr.idx)
     have hS : (closeStreams (won st s x.addr.idx)).settles
           = [.ok x.addr.idx s] := by
@@ -206,17 +205,20 @@ theorem deliverOk_inv {addrs st} (h : Inv addrs st) (s : Nat) (x : Stream) (hx :
       rw [hS] at hw
       cases hw
       obtain ⟨y', e1, _, _, e4⟩ := hL s (gDeliv x) hxs
-      have : y' = gDeliv x := e4 (List.nodup_range.not_mem_erase)
+      have : y' = gDeliv x := e4 hnd.not_mem_erase
       subst this
       refine ⟨gDeliv x, e1, rfl, hxc, rfl, ?_, ?_⟩
-      · rw [hlen]
-        exact hF.1.trans (by show st.inSet.erase s = _; rw [h0])
+      · show s ∉ (List.foldl closeStream (won st s x.addr.idx) (st.inSet.erase s)).inSet
+        rw [hF.1]
+        exact hnd.not_mem_erase
       · intro s' y hne hy
         have hlt : s' < st.streams.length := hlen ▸ lt_length_of_getElem? hy
-        obtain ⟨y'', e1', _, e3', _⟩ := hL s' _ (List.getElem?_eq_getElem (hn ▸ hlt))
+        obtain ⟨y'', e1', e2', e3', _⟩ := hL s' _ (List.getElem?_eq_getElem (hn ▸ hlt))
         rw [hy] at e1'
         cases e1'
-        exact e3' ((List.mem_erase_of_ne hne).mpr (List.mem_range.mpr hlt))
+        rcases h0' s' _ (List.getElem?_eq_getElem (hn ▸ hlt)) with hm | hc
+        · exact e3' ((List.mem_erase_of_ne hne).mpr hm)
+        · exact e2'.2.2.1 hc
     · intro hw; rw [hS] at hw; cases hw
     · intro o hw hk
       rw [hS] at hw
@@ -239,7 +241,7 @@ theorem onConnectTimeout_inv {addrs st} (h : Inv addrs st) : Inv addrs (onConnec
     · intro a w hw
       obtain ⟨x, hx, _, _, _, hin, _⟩ := h.sett.sok a w hw
       obtain ⟨y', e1, _, _, e4⟩ := foldl_closeStream_evo st.inSet st w x hx
-      have : y' = x := e4 (by rw [hin]; exact List.nodup_range.not_mem_erase)
+      have : y' = x := e4 hin
       subst this
       show (st.inSet.foldl closeStream st).streams[w]? = _
       rw [e1, hx]
@@ -258,13 +260,15 @@ theorem onConnectTimeout_inv {addrs st} (h : Inv addrs st) : Inv addrs (onConnec
     · intro _ y' hy'
       obtain ⟨i, hi⟩ := List.mem_iff_getElem?.mp hy'
       have hlt : i < st.streams.length := hF.2 ▸ lt_length_of_getElem? hi
-      obtain ⟨y'', e1, _, e3, _⟩ := foldl_closeStream_evo st.inSet
+      obtain ⟨y'', e1, e2, e3, _⟩ := foldl_closeStream_evo st.inSet
         { st with settles := st.settles ++ [.timeout] } i _ (List.getElem?_eq_getElem hlt)
       have hi' : (st.inSet.foldl closeStream { st with settles := st.settles ++ [.timeout] }).streams[i]?
           = some y' := hi
       rw [hi'] at e1
       cases e1
-      exact e3 (by rw [h0]; exact List.mem_range.mpr hlt)
+      rcases h0.1 i _ (List.getElem?_eq_getElem hlt) with hm | hc
+      · exact e3 hm
+      · exact e2.2.2.1 hc
     · intro o hw hk
       rw [hS] at hw
       cases hw
@@ -334,8 +338,7 @@ theorem upd_inv {addrs st} (h : Inv addrs st) (s : Nat) (x : Stream) (f : Stream
       constructor
       · intro _
         refine ⟨?_, ?_⟩
-        · show st.inSet = List.range (modifyNth f st.streams s).length
-          rw [length_modifyNth]; exact h0
+        · exact h0.upd f s hcl rfl rfl
         · refine forall_modifyNth _ _ _ _ h1 (fun y hy hP => ?_)
           rw [hx] at hy
           cases hy
@@ -485,7 +488,7 @@ theorem st0_inv (addrs : List Addr) : Inv addrs (st0 addrs) := by
       exact ha.2
     · intro x hx; cases hx
   · constructor
-    · intro _; exact ⟨rfl, fun x hx => by cases hx⟩
+    · intro _; exact ⟨⟨fun i x hi => by simp [st0] at hi, List.nodup_nil, fun i hi => by simp [st0] at hi⟩, fun x hx => by cases hx⟩
     · intro a w hw; cases hw
     · intro hw; cases hw
     · intro o hw; cases hw
